@@ -421,6 +421,17 @@ def _drop_macros(t: SrcText, names):
         while p >= 0 and mk[p].isspace():
             p -= 1
         prev = mk[p] if p >= 0 else "{"
+        # trailing method chain on the macro result, e.g. counter!(..).increment(n);
+        jj = j
+        while True:
+            mm = re.compile(r"\s*\.\s*\w+\s*\(").match(mk, jj)
+            if not mm:
+                break
+            jj = match_delim(mk, mm.end() - 1) + 1
+        while jj < len(mk) and mk[jj] in " \t":
+            jj += 1
+        if jj < len(mk) and mk[jj] == ";":
+            j = jj
         if j < len(mk) and mk[j] == ";" and prev in "{};":
             ls = _line_start(t.s, a)
             if t.s[ls:a].strip() == "":
